@@ -84,7 +84,7 @@ func (m c14mon) Check(s *sim.Sim, st *sim.Step) []*sim.Violation {
 	}
 	// the matching callback spends the state, whatever else happens
 	if rec.SessOut["oauth2_state"] == state {
-		vs = append(vs, vio("C14", fmt.Sprintf("matching-callback-did-not-spend-state|handler-error=%v|response-written=%v", rec.HandlerErr != "", flushed(rec)), "the callback matching the session's state left that state in the session (handler error %q, client state written: %v): a replayed callback will be accepted", trunc(rec.HandlerErr, 60), flushed(rec)))
+		vs = append(vs, vio("C14", fmt.Sprintf("matching-callback-did-not-spend-state|handler-error=%v|response-written=%v", rec.HandlerErr != "", rec.Wrote), "the callback matching the session's state left that state in the session (handler error %q, response written: %v, client state delivered: %v): a replayed callback will be accepted", trunc(rec.HandlerErr, 60), rec.Wrote, flushed(rec)))
 	} else {
 		m.stats.Count("state-spent")
 	}
